@@ -811,6 +811,37 @@ def d_scale_compact(a):
     return None if scale_compact_ref_decode(b + tail) == (v, tail) else "compact encoding of %d does not decode back" % v
 
 
+def d_scale_str(a):
+    """SubstrateScaleBytesEncoder.Encode(str): compact(length of the UTF-8 bytes) || UTF-8 bytes."""
+    t, = a
+    e = SubstrateScaleBytesEncoder.Encode(t)
+    u = t.encode("utf-8")
+    r = scale_compact_ref_decode(e + b"\x01")
+    ok = r is not None and r[0] == len(u) and r[1] == u + b"\x01" and e == SubstrateScaleBytesEncoder.Encode(u)
+    return None if ok else "bytes Encode(%r) = %s, SCALE of its UTF-8 is %s" % (t, e.hex(), (scale_compact_ref(len(u)) + u).hex())
+
+
+def d_signed_int(a):
+    """IntegerUtils.ToBytes / BytesUtils.ToInteger with signed=True are two's complement and inverse of each other."""
+    v, w, big = a
+    lo, hi = -(1 << (8 * w - 1)) if w else 0, (1 << (8 * w - 1)) - 1 if w else 0
+    try:
+        b = IntegerUtils.ToBytes(v, w, ENDS[big], signed=True)
+    except OverflowError:
+        return None if not (lo <= v <= hi) else "signed ToBytes(%d, %d) refused" % (v, w)
+    if not (lo <= v <= hi):
+        return "signed ToBytes(%d, %d) accepted out of range" % (v, w)
+    want = (v % (1 << (8 * w))).to_bytes(w, "big")
+    if (b if big else b[::-1]) != want:
+        return "signed ToBytes(%d, %d) = %s, two's complement is %s" % (v, w, b.hex(), want.hex())
+    back = BytesUtils.ToInteger(b, ENDS[big], signed=True)
+    if back != v:
+        return "signed ToInteger(ToBytes(%d)) = %d" % (v, back)
+    if BytesUtils.ToInteger(b, ENDS[big], signed=False) != v % (1 << (8 * w)):
+        return "unsigned ToInteger of %s" % b.hex()
+    return None
+
+
 def d_scale_bytes(a):
     b, = a
     e = SubstrateScaleBytesEncoder.Encode(b)
@@ -824,6 +855,8 @@ FUNCS.update({
                        impl=lambda a: UENC[a[0]].Encode(a[1]), direct=d_scale_uint),
     "scale_compact": Func(model=lambda m, a: m.call("scale_compact", Z(a[0])),
                           impl=lambda a: SubstrateScaleCUintEncoder.Encode(a[0]), direct=d_scale_compact),
+    "scale_str": Func(impl=lambda a: SubstrateScaleBytesEncoder.Encode(a[0]), direct=d_scale_str),
+    "signed_int": Func(impl=lambda a: 0, direct=d_signed_int),
     "scale_bytes": Func(model=lambda m, a: m.call("scale_bytes", a[0]),
                         impl=lambda a: SubstrateScaleBytesEncoder.Encode(a[0]), direct=d_scale_bytes),
     # model decoder against the reference decoder (no library counterpart)
@@ -866,6 +899,20 @@ def gen_scale(ctx):
         ctx.run("scale_bytes", [b], "len0-2", trivial=(b == b""))
     for n in (62, 63, 64, 65, 100, 255, 256, 1000, 16383, 16384, 16385, 70000):
         ctx.run("scale_bytes", [bytes(n)], "lenthreshold")
+    # text input: the length prefix counts UTF-8 bytes, not characters (thresholds 63/64 and 16383/16384 in bytes)
+    for t in ["", "a", "caf\u00e9", "\u20ac", "\u4e2d\u6587", "\U0001f600", "\u00e9" * 31 + "a", "\u00e9" * 32, "\u20ac" * 21 + "a",
+              "\u20ac" * 5461 + "a", "\U0001f600" * 4096, "a" * 63, "a" * 64, "\x00\u0080\u07ff\u0800\uffff\U00010000"]:
+        ctx.run("scale_str", [t], "text", trivial=(t == ""))
+    for _ in range(ctx.n(150, 2000)):
+        ctx.run("scale_str", ["".join(chr(rng.choice([rng.randrange(0x80), rng.randrange(0x80, 0x800), rng.randrange(0x800, 0xd800),
+                                                       rng.randrange(0xe000, 0x10000), rng.randrange(0x10000, 0x110000)]))
+                                      for _ in range(rng.choice([1, 2, 5, 20, 63, 64, 70])))], "text-rand")
+    # signed conversions (two's complement), both byte orders
+    for w in (1, 2, 4, 8, 32):
+        for v in [0, 1, -1, 127, 128, -128, -129, 255, 256, (1 << (8 * w - 1)) - 1, 1 << (8 * w - 1), -(1 << (8 * w - 1)),
+                  -(1 << (8 * w - 1)) - 1] + [rng.randrange(-(1 << (8 * w - 1)), 1 << (8 * w - 1)) for _ in range(ctx.n(6, 60))]:
+            for big in (0, 1):
+                ctx.run("signed_int", [v, w, big], "signed", trivial=(v == 0))
     ctx.note_exhaustive("SCALE: compact integers 0..1299 (0..69999 in thorough) and +-2 around every power of two that "
                         "matters; bytes of length 0..1 (2 in thorough); model compact decoder on every first byte")
     for _ in range(ctx.n(300, 5000)):
